@@ -373,7 +373,14 @@ func (b *Bundle) RegistryPackageVersions(pkgAddr regaddr.ModulePackage) versions
 	for v := range vs {
 		ret = append(ret, v)
 	}
-	ret.Sort()
+	// Versions that differ only in build metadata have equal precedence, so
+	// order those by their text to keep the result independent of map iteration.
+	sort.Slice(ret, func(i, j int) bool {
+		if ret[i].LessThan(ret[j]) || ret[j].LessThan(ret[i]) {
+			return ret[i].LessThan(ret[j])
+		}
+		return ret[i].String() < ret[j].String()
+	})
 	return ret
 }
 
